@@ -1190,15 +1190,30 @@ func main() {
 	}
 
 	// ---- 14. ValueFromBytes
-	ids := []string{"BOOT_GUARD_PBEC", "BTG_SACM_INFO", "IA32_DEBUG_INTERFACE", "IA32_FEATURE_CONTROL", "IA32_MTRRCAP", "IA32_PLATFORM_ID",
-		"IA32_SMRR_PHYSBASE", "IA32_SMRR_PHYSMASK", "ACM_POLICY_STATUS", "ACM_STATUS", "TXT.SPAD", "TXT.DIDVID", "TXT.STS", "TXT.VER.FSBIF",
-		"TXT.VER.EMIF", "TXT.SINIT.BASE", "TXT.SINIT.SIZE", "TXT.MLE.JOIN", "TXT.HEAP.BASE", "TXT.HEAP.SIZE", "TXT.DPR", "TXT.ERRORCODE",
-		"MP0_C2P_MSG_37", "MP0_C2P_MSG_38", "TXT.ESTS", "TXT.PUBLIC.KEY"}
+	// exhaustive sweep of the dispatch (which parser table lists the id, which width it reads):
+	// every register type, its id taken from its ID() method and checked against the registry
+	// (registers.New(id, nil) must yield this type), plus unknown ids, x EVERY length 0..40
+	// (beyond the widest register, 32 bytes, every length behaves alike)
+	var ids []string
+	for _, p := range []registers.Register{
+		registers.BootGuardPBEC(0), registers.BTGSACMInfo(0), registers.IA32DebugInterface(0), registers.IA32FeatureControl(0),
+		registers.IA32MTRRCAP(0), registers.IA32PlatformID(0), registers.IA32SMRRPhysBase(0), registers.IA32SMRRPhysMask(0),
+		registers.ACMPolicyStatus(0), registers.ACMStatus(0), registers.TXTBootStatus(0), registers.TXTDeviceID(0), registers.TXTStatus(0),
+		registers.TXTVerFSBIF(0), registers.TXTVerEMIF(0), registers.TXTSInitBase(0), registers.TXTSInitSize(0), registers.TXTMLEJoin(0),
+		registers.TXTHeapBase(0), registers.TXTHeapSize(0), registers.TXTDMAProtectedRange(0), registers.TXTErrorCode(0),
+		registers.MP0C2PMsg37(0), registers.MP0C2PMsg38(0), registers.TXTErrorStatus(0), registers.TXTPublicKey{},
+	} {
+		if z, err := registers.New(p.ID(), nil); err != nil || z == nil || fmt.Sprintf("%T", z) != fmt.Sprintf("%T", p) {
+			panic(fmt.Sprintf("register type %T (ID %s) is not what the registry holds under its ID: %v", p, p.ID(), err))
+		}
+		ids = append(ids, string(p.ID()))
+	}
 	badIDs := []string{"", "BOGUS", "TXT.STS ", "txt.sts", "TXT.PUBLIC.KEY\x00", "TXT.E2STS", "IA32_MTRRCA"}
 	for _, id := range append(append([]string{}, ids...), badIDs...) {
-		for _, n := range []int{0, 1, 2, 3, 4, 5, 7, 8, 9, 16, 31, 32, 33, 64} {
+		for n := 0; n <= 40; n++ {
 			h.run("ValueFromBytes", dValueFrom, nil, h.rbytes(n), []byte(id), fmt.Sprintf("id %q, %d random bytes", id, n))
 		}
+		h.run("ValueFromBytes", dValueFrom, nil, h.rbytes(64), []byte(id), fmt.Sprintf("id %q, 64 random bytes", id))
 	}
 	for i := 0; i < q(40, 400); i++ {
 		id := ids[h.c.Rng.Intn(len(ids))]
